@@ -334,7 +334,7 @@ type Handle struct {
 	mu        sync.Mutex
 	getCalls  int
 	waiters   []chan struct{}
-	Sent int
+	Sent      int
 	// Hook is called around every appended message of Send and around GetMessages of THIS
 	// handle (crash points / scheduling points of one node).
 	Hook func(op, phase string)
